@@ -78,7 +78,7 @@ def reentrancy(ck, insts):
     # callers of resetOwnThread outside the class: lockset at the call
     resets = {f.id for f in F.fns.values() if f.cls in insts and f.name.endswith("::resetOwnThread")}
     for f in sorted(F.fns.values(), key=lambda x: (x.file, x.line, x.sig)):
-        if f.body is None or f.cls in insts or "/src/qtlogger/" not in (f.file or ""):
+        if f.body is None or f.cls in insts or not in_lib(f.file):
             continue
         calls = [c for c in f.calls() if c.get("fn") in resets]
         if not calls:
@@ -366,13 +366,13 @@ def stays_installed_during_stop(ck):
     the stop path — resetOwnThread() and whatever overrides or wraps it — never changes Qt's message handler"""
     F = ck.facts
     ck.rule("C04-O8", "no function called resetOwnThread (the base one or an override) and nothing they reach calls qInstallMessageHandler: the logger stays Qt's message handler for the whole stop")
-    stops = [f for f in F.fns.values() if f.body is not None and f.name.split("::")[-1] == "resetOwnThread" and "/src/qtlogger/" in (f.file or "")]
+    stops = [f for f in F.fns.values() if f.body is not None and f.name.split("::")[-1] == "resetOwnThread" and in_lib(f.file)]
     ck.require(stops, "no resetOwnThread found")
     reach = F.reachable_from(stops, virtual=True)
     bad = 0
     for i_ in sorted(reach):
         f_ = F.fns.get(i_)
-        if f_ is None or f_.body is None or "/src/qtlogger/" not in (f_.file or ""):
+        if f_ is None or f_.body is None or not in_lib(f_.file):
             continue
         for q in f_.calls("qInstallMessageHandler"):
             bad += 1
